@@ -6,7 +6,7 @@ id=$1; wt=$2; out=/tmp/seed-out/$id
 export GOFLAGS=-mod=mod GOPROXY=off
 cd $wt || exit 2
 pkg=$(python3 -c "import json;print(json.load(open('$out/meta.json'))['demo_pkg'])")
-git checkout -q -- . ; git stash list | grep -q . && git stash drop -q
+git checkout -q -- .
 cp $out/zz_seeded_demo_test.go $wt/$pkg/ 2>/dev/null
 echo "--- without the change:"; go test -count=1 -run 'Seeded|seeded|Demo' ./$pkg/ 2>&1 | tail -3
 git apply $out/patch.diff || { echo "patch does not apply"; exit 2; }
